@@ -253,7 +253,7 @@ Qed.
 Lemma floor_pack_norm f : floor_pack (floor_norm f) = floor_pack f.
 Proof. destruct f as [k p l r]. destruct k; reflexivity. Qed.
 Lemma tower_bytes_norm t : tower_bytes (map floor_norm t) = tower_bytes t.
-Proof. unfold tower_bytes. rewrite len_map, map_map. f_equal. f_equal. f_equal. apply map_ext. intros f. apply floor_pack_norm. Qed.
+Proof. unfold tower_bytes. rewrite len_map, map_map. rewrite (map_ext _ floor_pack floor_pack_norm). reflexivity. Qed.
 Lemma towers_pack_norm n : forall ts idx, towers_pack n idx (map (map floor_norm) ts) = towers_pack n idx ts.
 Proof. induction ts as [|t r IH]; intros idx; [reflexivity|]. cbn [map towers_pack]. rewrite tower_bytes_norm, IH. reflexivity. Qed.
 Lemma referents_pack_norm : forall ts idx, referents_pack idx (map (map floor_norm) ts) = referents_pack idx ts.
